@@ -166,8 +166,8 @@ class Views(Harness):
                  MISC + ':randn_c_RS')
     bounds = ('K=2; antenna layouts A=(Nr [1,2], Nt [2,1]) and B=(Nr [2,1], '
               'Nt [1,1]); histories = initial randomize/init + up to 2 '
-              '(quick) / 3 (thorough) further operations from a 12-letter '
-              'alphabet; plain and external-interference (1 source, 1 '
+              '(quick; plus all update-read-update triples) / 3 (thorough) '
+              'further operations from a 12-letter alphabet; plain and external-interference (1 source, 1 '
               'antenna) channels; 1 data symbol per antenna')
     stubs = ('_RS_channel / _RS_noise -> stub whose randn returns fresh '
              'symbolic reals', 'scipy block_diag runs unmodified on object '
@@ -191,6 +191,12 @@ class Views(Harness):
                 seqs = [()]
                 for ln in range(1, n + 1):
                     seqs += list(itertools.product(ops, repeat=ln))
+                if tier == 'quick':
+                    # cache-sensitive triples: update, read (fills a cache),
+                    # update -- the pattern that exposes missing invalidation
+                    upd = [o for o in ops if o[0] != 'r']
+                    seqs += [(a, r, b) for a in upd for r in ('rH', 'rB')
+                             for b in upd]
                 # group histories into units of ~40
                 chunk = 40 if tier == 'quick' else 120
                 for i in range(0, len(seqs), chunk):
